@@ -212,3 +212,58 @@ def shrink_candidates(case):
 
 def signature(case, obs, msgs):
     return dict(params(case), kind=case["kind"])
+
+
+# ------------------------------------------------------------------ the translated model (second tie)
+def obligations(ctx):
+    """Re-translates election.py of the tree under test to Gallina (tools/py2coq_election.py) and re-checks, against that
+    fresh translation, the theorems of coqgen/Election_Gen_Proofs.v: the translation computes the same function as the
+    hand-written model Election.v on every input, hence the C13 theorems hold of the translated source.  A construct
+    the translator does not support makes this tie not applicable (the correspondence check still decides)."""
+    import os, shutil, subprocess, sys, re
+    from . import coqrun
+    repo = os.environ.get("VERIF_REPO", "/repo")
+    src = os.path.join(repo, "menelaus", "ensemble", "election.py")
+    d = os.path.join(coqrun.BUILD, "C13", f"gen.{os.getpid()}")
+    shutil.rmtree(d, ignore_errors=True)
+    os.makedirs(d)
+    try:
+        r = subprocess.run([sys.executable, os.path.join(coqrun.VERIF, "tools", "py2coq_election.py"), src,
+                            os.path.join(d, "Election_Gen.v")], capture_output=True, text=True, timeout=120)
+        if r.returncode != 0:
+            yield {"name": "py2coq_election", "ok": None,
+                   "detail": "translation not applicable: " + (r.stderr.strip() or r.stdout.strip())[-300:]}
+            return
+        shutil.copy(os.path.join(coqrun.VERIF, "coqgen", "Election_Gen_Proofs.v"), d)
+        hits = [l.strip() for l in open(os.path.join(d, "Election_Gen_Proofs.v"))
+                if re.search(r"\b(Admitted|admit|Axiom|Parameter|Conjecture|Abort)\b|Unset Guard|bypass_check|native_compute", l)
+                and not l.strip().startswith("(*")]
+        if hits:
+            yield {"name": "Election_Gen_Proofs", "ok": False, "detail": f"forbidden constructs: {hits[:3]}"}
+            return
+        args = ["coqc", "-Q", coqrun.COQ, "MV", "-Q", ".", "MVG"]
+        r = subprocess.run(args + ["Election_Gen.v"], cwd=d, capture_output=True, text=True, timeout=300)
+        if r.returncode != 0:
+            yield {"name": "py2coq_election", "ok": None,
+                   "detail": "translation not applicable: the generated Gallina does not type-check: " + (r.stdout + r.stderr)[-300:]}
+            return
+        r = subprocess.run(args + ["Election_Gen_Proofs.v"], cwd=d, capture_output=True, text=True, timeout=600)
+        out = r.stdout + r.stderr
+        if r.returncode != 0:
+            yield {"name": "Election_Gen_Proofs (translation of the current election.py = Election.v, on every input)", "ok": False,
+                   "detail": "the equivalence proof no longer checks against the re-translated source: " + out[-600:]}
+            return
+        names = re.findall(r"^Print Assumptions (\w+)\.", open(os.path.join(d, "Election_Gen_Proofs.v")).read(), re.M)
+        closed = out.count("Closed under the global context")
+        if closed != len(names):
+            yield {"name": "Election_Gen_Proofs", "ok": False,
+                   "detail": f"{len(names) - closed} of {len(names)} theorems depend on axioms: " + out[-400:]}
+            return
+        gen = open(os.path.join(d, "Election_Gen.v")).read()
+        snap = open(os.path.join(coqrun.VERIF, "coqgen", "Election_Gen.v")).read()
+        for n in names:
+            yield {"name": "MVG.Election_Gen_Proofs." + n, "ok": True,
+                   "detail": "closed under the global context; checked against the translation of " + src
+                             + ("" if gen == snap else " (differs from the committed snapshot coqgen/Election_Gen.v)")}
+    finally:
+        shutil.rmtree(d, ignore_errors=True)
